@@ -20,7 +20,7 @@ ASSUMPTIONS = [
 ]
 
 EPS = np.finfo(float).eps
-REQUIRED_CLASSES = {"closed_form": ["x>709", "lang:C", "lang:Py", "classical", "cutoff:mid"]}
+REQUIRED_CLASSES = {"closed_form": ["x>709", "tiny_mode", "lang:C", "lang:Py", "classical", "cutoff:mid"]}
 
 
 class _P:
@@ -95,6 +95,7 @@ def cf_specs(draw, tier):
     return {
         "key": draw(st.integers(0, 2**32 - 1)), "nq": nq, "nb": nb,
         "neg_frac": draw(st.sampled_from([0.0, 0.0, 0.2])), "zeros": draw(st.booleans()), "dups": draw(st.booleans()),
+        "tiny": draw(st.sampled_from([False, False, True])),
         "sorted": draw(st.booleans()),
         "cutoff": draw(st.sampled_from(["none", "zero", "mid", "mid", "negative"])),
         "classical": draw(st.sampled_from([False, False, True])),
@@ -115,6 +116,9 @@ def make_freqs(spec):
         f = f * np.where(rng.random(f.shape) < spec["neg_frac"], -1, 1)
     if spec["zeros"]:
         f[0, 0] = 0.0
+    if spec.get("tiny") and f.size > 1:
+        # acoustic modes at Gamma: tiny positive rounding residues
+        f[-1, -1] = 10 ** rng.uniform(-16, -6)
     if spec["sorted"]:
         f = np.sort(f, axis=1)
     w = rng.integers(1, 9, size=spec["nq"])
@@ -196,7 +200,7 @@ def run_closed_form(spec):
     distinct = len(set(np.round(fsel[fsel * THzToEv > cut_eff * THzToEv], 9).tolist()))
     classes = ["lang:" + spec["lang"], "classical" if spec["classical"] else "quantum", "cutoff:" + spec["cutoff"],
                "bi:" + spec["band_indices"], "pretend" if spec["pretend_real"] else "asis",
-               "x>709" if xmax > 709 else ("x>50" if xmax > 50 else "x<=50")]
+               "x>709" if xmax > 709 else ("x>50" if xmax > 50 else "x<=50"), "tiny_mode" if spec.get("tiny") else "no_tiny_mode"]
     return Out(ok=True, nontrivial=distinct >= 2 and len(Ts) > 1, classes=classes, info={"tol_ratio": worst, "xmax": xmax})
 
 
